@@ -10,7 +10,7 @@
 (* implementation result: they verify the model against the published      *)
 (* check values in the same run.                                           *)
 (***************************************************************************)
-EXTENDS Crc, Json, IOUtils, TLC
+EXTENDS Sha, Json, IOUtils, TLC
 
 Rec == ndJsonDeserialize(IOEnv.TRACE)
 VARIABLES l, k, reg, viols, cnt
@@ -19,7 +19,15 @@ Ev == Rec[l]
 Alg(e) == Params(e.inp.alg)
 Bits(e) == MsgBits(e.inp.x.c, Alg(e).refin)
 Bump(c, name) == [c EXCEPT ![name] = @ + 1]
-StartReg(j) == IF j <= Len(Rec) /\ Rec[j].e = "law" /\ Rec[j].law.name = "crc" THEN InitReg(Params(Rec[j].inp.alg)) ELSE <<>>
+IsSha(e) == e.e = "law" /\ e.law.name = "sha"
+IsSha3(e) == e.e = "law" /\ e.law.name = "sha3"
+BlockWords(A, msg, b) == IF b <= NBlocks(A, msg) THEN [j \in 1..16 |-> BlockWord(A, msg, b, j)] ELSE <<>>
+RawBytes(v) == IF "c" \in DOMAIN v THEN v.c ELSE v.u          \* (ASCII-only when given as text)
+ShaInit(A, msg) == [h |-> A.iv, v |-> A.iv, w |-> <<>>, b |-> 1, t |-> 0, m |-> BlockWords(A, msg, 1)]
+StartReg(j) == IF j <= Len(Rec) /\ Rec[j].e = "law" /\ Rec[j].law.name = "crc" THEN InitReg(Params(Rec[j].inp.alg))
+               ELSE IF j <= Len(Rec) /\ IsSha(Rec[j]) THEN ShaInit(Algo(Rec[j].inp.f), RawBytes(Rec[j].inp.x))
+               ELSE IF j <= Len(Rec) /\ IsSha3(Rec[j]) THEN [A |-> Absorb(Sha3Params(Rec[j].inp.f), ZeroState, RawBytes(Rec[j].inp.x), 1), b |-> 1, t |-> 0]
+               ELSE <<>>
 
 Bit == /\ l <= Len(Rec) /\ Ev.e = "law" /\ Ev.law.name = "crc" /\ k < Len(Bits(Ev))
        /\ reg' = StepBit(reg, Poly(Alg(Ev)), Bits(Ev)[k + 1])
@@ -40,7 +48,6 @@ Judge == /\ l <= Len(Rec) /\ Ev.e = "law" /\ Ev.law.name = "crc" /\ k = Len(Bits
 (* ---------- the other digests: definitional and published-vector laws, one step per record ---------- *)
 IsCrc(e) == e.e = "law" /\ e.law.name = "crc"
 OkStr(x) == x.k = "ok" /\ x.v.t = "bytes" /\ "u" \in DOMAIN x.v
-RawBytes(v) == IF "c" \in DOMAIN v THEN v.c ELSE v.u          \* (ASCII-only when given as text)
 RECURSIVE BitsVal(_, _)
 BitsVal(b, acc) == IF b = <<>> THEN acc ELSE BitsVal(Tail(b), acc * 2 + Head(b))
 XorByte(a, b) == BitsVal(Xor(ByteBits(a), ByteBits(b)), 0)
@@ -96,10 +103,49 @@ HashLaw(r, i, name) ==
                              /\ (RawBytes(i.x) = RawBytes(i.y)) => (\A n \in {"x32", "x64", "x3", "sea"} : r[n].v.w = r[n \o "_y"].v.w) /\ r.x128.v.s = r.x128_y.v.s
                              /\ (RawBytes(i.x) # RawBytes(i.y)) => (\A n \in {"x64", "x3", "sea"} : r[n].v.w # r[n \o "_y"].v.w) /\ r.x128.v.s # r.x128_y.v.s
                              /\ r.x64.v.w # r.x3.v.w /\ r.x64.v.w # r.sea.v.w /\ r.x3.v.w # r.sea.v.w
-Digest == /\ l <= Len(Rec) /\ Ev.e = "law" /\ ~IsCrc(Ev)
+Digest == /\ l <= Len(Rec) /\ Ev.e = "law" /\ ~IsCrc(Ev) /\ ~IsSha(Ev) /\ ~IsSha3(Ev)
           /\ LET ok == IF Ev.law.name \in {"xx_vector", "hash_laws"} THEN HashLaw(Ev.r, Ev.inp, Ev.law.name) ELSE DigestLaw(Ev.r, Ev.inp, Ev.law.name) IN
              /\ viols' = IF ok THEN viols ELSE Append(viols, [prop |-> "C27", rule |-> Ev.law.name, at |-> Ev.law.fn, prog |-> 0, line |-> l, what |-> [inp |-> Ev.inp, r |-> Ev.r]])
              /\ cnt' = Bump(Bump(cnt, "laws"), "C27")
+          /\ l' = l + 1 /\ k' = 0 /\ reg' = StartReg(l + 1)
+
+(* ---------- md5 / sha1 / sha2: the model of Sha.tla, one round of the compression function per step ---------- *)
+HA == Algo(Ev.inp.f)
+HMsg == RawBytes(Ev.inp.x)
+ShaRound == /\ l <= Len(Rec) /\ IsSha(Ev) /\ reg.b <= NBlocks(HA, HMsg) /\ reg.t < HA.rounds
+            /\ LET nx == Round(HA, reg.v, reg.w, reg.m, reg.t)
+               IN reg' = [reg EXCEPT !.v = nx.v, !.w = nx.w, !.t = reg.t + 1]
+            /\ k' = k + 1 /\ UNCHANGED <<l, viols, cnt>>
+ShaBlockEnd == /\ l <= Len(Rec) /\ IsSha(Ev) /\ reg.b <= NBlocks(HA, HMsg) /\ reg.t = HA.rounds
+               /\ LET h2 == AddWords(reg.h, reg.v) IN reg' = [h |-> h2, v |-> h2, w |-> <<>>, b |-> reg.b + 1, t |-> 0, m |-> BlockWords(HA, HMsg, reg.b + 1)]
+               /\ k' = k + 1 /\ UNCHANGED <<l, viols, cnt>>
+ShaJudge == /\ l <= Len(Rec) /\ IsSha(Ev) /\ reg.b > NBlocks(HA, HMsg)
+            /\ LET want == DigestHex(HA, reg.h)
+                   \* a published record carries the vector as text and code points; the text must be the spec's own entry
+                   ok == IF Ev.inp.published THEN [f |-> Ev.inp.f, m |-> Ev.inp.x.s, h |-> Ev.inp.want.s] \in Published /\ Ev.inp.want.u = want
+                         ELSE OkStr(Ev.r.out) /\ Ev.r.out.v.u = want
+               IN /\ viols' = IF ok THEN viols
+                              ELSE Append(viols, [prop |-> "C27", rule |-> IF Ev.inp.published THEN "ModelReproducesPublishedVector" ELSE "DigestMatchesModel",
+                                                  at |-> Ev.inp.f, prog |-> 0, line |-> l, what |-> [inp |-> Ev.inp, r |-> Ev.r, want |-> want]])
+                  /\ cnt' = Bump(Bump(cnt, "laws"), IF Ev.inp.published THEN "published" ELSE "C27")
+            /\ l' = l + 1 /\ k' = 0 /\ reg' = StartReg(l + 1)
+
+(* ---------- sha3: Keccak-f[1600], one round per step ---------- *)
+KP == Sha3Params(Ev.inp.f)
+KRound == /\ l <= Len(Rec) /\ IsSha3(Ev) /\ reg.b <= Sha3Blocks(KP, HMsg) /\ reg.t < 24
+          /\ reg' = [reg EXCEPT !.A = KeccakRound(reg.A, reg.t), !.t = reg.t + 1]
+          /\ k' = k + 1 /\ UNCHANGED <<l, viols, cnt>>
+KBlockEnd == /\ l <= Len(Rec) /\ IsSha3(Ev) /\ reg.b <= Sha3Blocks(KP, HMsg) /\ reg.t = 24
+             /\ reg' = [A |-> IF reg.b < Sha3Blocks(KP, HMsg) THEN Absorb(KP, reg.A, HMsg, reg.b + 1) ELSE reg.A, b |-> reg.b + 1, t |-> 0]
+             /\ k' = k + 1 /\ UNCHANGED <<l, viols, cnt>>
+KJudge == /\ l <= Len(Rec) /\ IsSha3(Ev) /\ reg.b > Sha3Blocks(KP, HMsg)
+          /\ LET want == Sha3Hex(KP, reg.A)
+                 ok == IF Ev.inp.published THEN [f |-> Ev.inp.f, m |-> Ev.inp.x.s, h |-> Ev.inp.want.s] \in Published /\ Ev.inp.want.u = want
+                       ELSE OkStr(Ev.r.out) /\ Ev.r.out.v.u = want
+             IN /\ viols' = IF ok THEN viols
+                            ELSE Append(viols, [prop |-> "C27", rule |-> IF Ev.inp.published THEN "ModelReproducesPublishedVector" ELSE "DigestMatchesModel",
+                                                at |-> Ev.inp.f, prog |-> 0, line |-> l, what |-> [inp |-> Ev.inp, r |-> Ev.r, want |-> want]])
+                /\ cnt' = Bump(Bump(cnt, "laws"), IF Ev.inp.published THEN "published" ELSE "C27")
           /\ l' = l + 1 /\ k' = 0 /\ reg' = StartReg(l + 1)
 
 Lost == /\ l <= Len(Rec) /\ Ev.e = "call"
@@ -108,7 +154,7 @@ Lost == /\ l <= Len(Rec) /\ Ev.e = "call"
         /\ l' = l + 1 /\ k' = 0 /\ reg' = StartReg(l + 1)
 
 Init == l = 1 /\ k = 0 /\ reg = StartReg(1) /\ viols = <<>> /\ cnt = [c \in {"laws", "C27", "published"} |-> 0]
-Next == Bit \/ Judge \/ Digest \/ Lost
+Next == Bit \/ Judge \/ Digest \/ ShaRound \/ ShaBlockEnd \/ ShaJudge \/ KRound \/ KBlockEnd \/ KJudge \/ Lost
 TraceSpec == Init /\ [][Next]_cvars
 Report == (l = Len(Rec) + 1) =>
    PrintT(<<"RESULT", ToJson([consumed |-> l - 1, viols |-> viols, divs |-> <<>>, cnt |-> cnt])>>)
